@@ -67,6 +67,8 @@ def instances(tier, rng):
                 if cls not in C.MINCLS:
                     r["k"] = max(1, len(u["proutes"]))
                 out.append(r)
+    # (MinFlowDecomp / MinFlowDecompCycles accept additional starts / ends in node mode only - there is no edge-mode twin to compare
+    # with; node-weighted flows that start / end at an inner node are C10's family)
     for cls in NODE_CLASSES_DAG + NODE_CLASSES_CYC:      # single-node graphs
         r = C.base(single, cls, "node")
         if cls not in C.COVER:
